@@ -9,11 +9,15 @@
 
 #define CC_H
 #include <pthread.h>
-#ifdef PAD_UNION_MEMBER
-/* Cut (R17): the runner hands this harness a scratch copy of cache-priv.h in which the page union member under test got a trailing pad
-   that makes it the WIDEST member.  cbmc represents a union by its widest member; stores to any other member are lowered to byte updates
-   over the whole 4.4 KB union (parse_pop: 6.3 GB, 420 s; with the pad: see DESIGN 0.2).  Layout of the member itself is unchanged; the pad is
-   part of the frame assertion (stays zero).  Included first so that its include guard wins over /repo/src/cache-priv.h. */
+#ifdef CARVE_PAGE_UNION
+/* Cut (R17): the runner hands the LEAF PARSER obligations a scratch copy of cache-priv.h (regenerated from the current source on every run) in
+   which the anonymous page union `data` of cache_page is a struct.  cbmc represents a union by its widest member (drcs, 4416 bytes); every
+   store to another member is lowered to a byte update that rebuilds all ~4000 scalars of that member: ONE parse_pop call cost 81 s / 3.2 GB,
+   with the members laid out side by side 4.5 s / 0.24 GB.  Sound for functions which use a single member of the union (parse_pop: pop,
+   parse_ait: ait, parse_27: unknown, parse_28_29: ext_lop.ext, convert_drcs: drcs, parse_mip: unknown, lop_parity_check: lop.raw and
+   enh_lop.enh, never enh_lop.lop) - they cannot observe the layout; a store that leaves its member lands in a sibling that must stay zero
+   (frame assertions).  NOT used for the dispatcher obligations (vbi_decode_teletext relies on the members overlaying each other).
+   Included first so that its include guard wins over /repo/src/cache-priv.h. */
 #include "cache-priv.h"
 #endif
 #include "src/bcd.h"
@@ -227,11 +231,23 @@ static cache_page CP, CP2;
 #endif
 
 #if defined(G_CP)
+/* Typed frames and comparisons (member-wise): a byte-wise walk over a page costs cbmc ~10 ms of symex per byte (25 000 iterations over the
+   side-by-side layout: no end in 300 s); member-wise loops over the tables the parser may touch plus windows into the neighbouring members
+   cost a few seconds. */
+static int cp_header_eq(const cache_page *a, const cache_page *b)
+{ return a->function == b->function && a->pgno == b->pgno && a->subno == b->subno && a->national == b->national && a->flags == b->flags
+    && a->lop_packets == b->lop_packets && a->x26_designations == b->x26_designations && a->x27_designations == b->x27_designations
+    && a->x28_designations == b->x28_designations && a->ref_count == b->ref_count && a->priority == b->priority && a->network == b->network; }
+static int trip_zero(const struct ttx_triplet *t) { return t->address == 0 && t->mode == 0 && t->data == 0; }
+static int trip_eq(const struct ttx_triplet *a, const struct ttx_triplet *b) { return a->address == b->address && a->mode == b->mode && a->data == b->data; }
+static int plink_zero(const struct ttx_page_link *l) { return l->function == 0 && l->pgno == 0 && l->subno == 0; }
+static int plink_eq(const struct ttx_page_link *a, const struct ttx_page_link *b) { return a->function == b->function && a->pgno == b->pgno && a->subno == b->subno; }
+static const cache_page ZCP;
+
 V_HARNESS(h_pop)
 {
-  uint8_t raw[40], r2[40]; int packet; unsigned pos, d; vbi_bool a, b;
+  uint8_t raw[40], r2[40]; int packet; unsigned pos, d, i; vbi_bool a, b;
   V_INIT();
-  ZERO_STATIC(CP); ZERO_STATIC(CP2);       /* parse_pop only writes */
   in_bytes(raw, 40); packet = in_u8() & 31; pos = in_u16(); d = in_u32();
   V_ASSUME(packet >= 1 && packet <= 26);
   V_ASSUME(pos < 320);
@@ -240,21 +256,27 @@ V_HARNESS(h_pop)
   memcpy(r2, raw, 40);
   FOR_CONCRETE(k, 1, 26, packet, a = parse_pop(&CP, raw, k));
   { /* frame (EN 300 706 10.5.1): pointer packets 1..4 with odd designation write the 12 pointer pairs of that packet, every other
-       accepted packet its 13 triplets; a rejected packet writes nothing */
-    int des = ref_unham8(raw[0]), pk = packet; size_t lo = 0, hi = 0;
+       accepted packet its 13 triplets; a rejected packet writes nothing (parse_pop only writes: initial state all zero) */
+    int des = ref_unham8(raw[0]), pk = packet; unsigned plo = 0, phi = 0, tlo = 0, thi = 0;
     if (packet == 26 && des >= 0) pk = 26 + des;
-    if (a) {
-      if (pk <= 4 && (des & 1)) { lo = offsetof(cache_page, data.pop.pointer) + ((size_t) (pk - 1) * 26 + 2) * 2; hi = lo + 24 * 2; }
-      else { lo = offsetof(cache_page, data.pop.triplet) + (size_t) (pk - 3) * 13 * sizeof(struct ttx_triplet); hi = lo + 13 * sizeof(struct ttx_triplet); }
-    }
-    V_ASSERT(zero_except(&CP, sizeof CP, lo, hi), "pop_writes_only_its_pointers_or_triplets");
-    V_ASSERT(hi <= offsetof(cache_page, data.pop.triplet) + sizeof CP.data.pop.triplet, "pop_region_inside_tables");
-    V_ASSERT(!(a && pk <= 4 && (des & 1)) || hi <= offsetof(cache_page, data.pop.pointer) + sizeof CP.data.pop.pointer, "pop_pointer_region_inside_pointer_table"); }
+    if (a) { if (pk <= 4 && (des & 1)) { plo = (unsigned) (pk - 1) * 26 + 2; phi = plo + 24; } else { tlo = (unsigned) (pk - 3) * 13; thi = tlo + 13; } }
+    V_ASSERT(phi <= N_ELEMENTS(CP.data.pop.pointer), "pop_pointer_region_inside_pointer_table");
+    V_ASSERT(thi <= N_ELEMENTS(CP.data.pop.triplet), "pop_region_inside_tables");
+    V_ASSERT(cp_header_eq(&CP, &ZCP), "pop_page_header_untouched");
+    for (i = 0; i < N_ELEMENTS(CP.data.pop.pointer); i++) if (i < plo || i >= phi) V_ASSERT(CP.data.pop.pointer[i] == 0, "pop_writes_only_its_pointers_or_triplets");
+    for (i = 0; i < N_ELEMENTS(CP.data.pop.triplet); i++) if (i < tlo || i >= thi) V_ASSERT(trip_zero(&CP.data.pop.triplet[i]), "pop_writes_only_its_pointers_or_triplets");
+#ifdef CARVE_PAGE_UNION   /* neighbours of data.pop in the side-by-side layout: the tail of gpop, the head of gdrcs */
+    for (i = N_ELEMENTS(CP.data.gpop.triplet) - 64; i < N_ELEMENTS(CP.data.gpop.triplet); i++) V_ASSERT(trip_zero(&CP.data.gpop.triplet[i]), "pop_nothing_before_its_tables");
+    for (i = 0; i < 160; i++) V_ASSERT(CP.data.gdrcs.lop.raw[i / 40][i % 40] == 0, "pop_nothing_behind_its_tables");
+#endif
+  }
   flip(r2, 40, pos);
   FOR_CONCRETE(k, 1, 26, packet, b = parse_pop(&CP2, r2, k));
   /* C03: the single error is corrected: same result, same page */
   V_ASSERT(a == b, "pop_single_error_same_result");
-  V_ASSERT(bytes_eq(&CP, &CP2, sizeof CP), "pop_single_error_same_state");
+  V_ASSERT(cp_header_eq(&CP, &CP2), "pop_single_error_same_state");
+  for (i = 0; i < N_ELEMENTS(CP.data.pop.pointer); i++) V_ASSERT(CP.data.pop.pointer[i] == CP2.data.pop.pointer[i], "pop_single_error_same_state");
+  for (i = 0; i < N_ELEMENTS(CP.data.pop.triplet); i++) V_ASSERT(trip_eq(&CP.data.pop.triplet[i], &CP2.data.pop.triplet[i]), "pop_single_error_same_state");
   if (a) V_REACH("clean");
   V_END();
 }
@@ -268,9 +290,9 @@ static vbi_decoder VBI;
 #if defined(G_CP)
 V_HARNESS(h_27)
 {
-  uint8_t raw[40], r2[40]; unsigned pos, mag0, d, des; vbi_bool a, b;
+  uint8_t raw[40], r2[40]; unsigned pos, mag0, d, des, i; vbi_bool a, b;
   V_INIT();
-  ZERO_STATIC(CP); ZERO_STATIC(CP2);       /* parse_27 reads only cvtp->function (LOP here; DISCARD returns at once) */
+  /* parse_27 reads only cvtp->function (0 = LOP here; DISCARD returns at once) */
   in_bytes(raw, 40); pos = in_u16(); mag0 = in_u8() & 7; d = in_u32(); des = in_u8() & 15;
 #ifdef DESSEL    /* designation code enumerated by the runner */
   des = (DESSEL);
@@ -281,15 +303,21 @@ V_HARNESS(h_27)
   if (pos / 8 >= 1) { if (des <= 3) put_ham8(raw, 40, pos / 8, d); else if (des <= 5 && pos / 8 <= 36) put_ham24(raw, (pos / 8 - 1) / 3, d); }
   memcpy(r2, raw, 40);
   a = parse_27((vbi_decoder *) 0, raw, &CP, (int) mag0);
-  { size_t lo = 0, hi = 0;     /* frame: designation d writes link[6d .. 6d+5] (and the FLOF flag for d = 0), nothing else */
-    if (des <= 5) { lo = offsetof(cache_page, data.unknown.link) + (size_t) des * 6 * sizeof(struct ttx_page_link); hi = lo + 6 * sizeof(struct ttx_page_link); }
-    { vbi_bool hf = CP.data.unknown.have_flof; CP.data.unknown.have_flof = 0;
-      V_ASSERT(zero_except(&CP, sizeof CP, lo, hi), "x27_writes_only_its_six_links");
-      CP.data.unknown.have_flof = hf; V_ASSERT(des == 0 || hf == 0, "x27_flof_flag_only_from_designation_0"); } }
+  { unsigned lo = 0, hi = 0;     /* frame: designation d writes link[6d .. 6d+5] (and the FLOF flag for d = 0), nothing else */
+    if (des <= 5) { lo = des * 6; hi = lo + 6; }
+    V_ASSERT(cp_header_eq(&CP, &ZCP), "x27_page_header_untouched");
+    for (i = 0; i < N_ELEMENTS(CP.data.unknown.link); i++) if (i < lo || i >= hi) V_ASSERT(plink_zero(&CP.data.unknown.link[i]), "x27_writes_only_its_six_links");
+    for (i = 0; i < 26 * 40; i++) V_ASSERT(CP.data.unknown.raw[i / 40][i % 40] == 0, "x27_rows_untouched");
+    V_ASSERT(des == 0 || CP.data.unknown.have_flof == 0, "x27_flof_flag_only_from_designation_0");
+#ifdef CARVE_PAGE_UNION   /* neighbour behind data.unknown in the side-by-side layout */
+    for (i = 0; i < 160; i++) V_ASSERT(CP.data.lop.raw[i / 40][i % 40] == 0, "x27_nothing_behind_the_link_table");
+#endif
+  }
   flip(r2, 40, pos);
   b = parse_27((vbi_decoder *) 0, r2, &CP2, (int) mag0);
   V_ASSERT(a == b, "x27_single_error_same_result");
-  V_ASSERT(bytes_eq(&CP, &CP2, sizeof CP), "x27_single_error_same_state");
+  V_ASSERT(cp_header_eq(&CP, &CP2) && CP.data.unknown.have_flof == CP2.data.unknown.have_flof, "x27_single_error_same_state");
+  for (i = 0; i < N_ELEMENTS(CP.data.unknown.link); i++) V_ASSERT(plink_eq(&CP.data.unknown.link[i], &CP2.data.unknown.link[i]), "x27_single_error_same_state");
   if (a) V_REACH("clean");
   V_END();
 }
@@ -301,7 +329,7 @@ V_HARNESS(h_27_links)
 {
   uint8_t raw[40]; unsigned mag0, i, des; unsigned mag_link[6], page[6], subno[6]; vbi_bool r; unsigned ctl;
   V_INIT();
-  ZERO_STATIC(CP); CP.function = PAGE_FUNCTION_LOP;
+  CP.function = PAGE_FUNCTION_LOP;
   mag0 = in_u8() & 7; des = in_u8() & 3; ctl = in_u8() & 15;
   raw[0] = ref_ham8(des);
   for (i = 0; i < 6; i++) { mag_link[i] = 1 + (in_u8() & 7); page[i] = in_u8(); subno[i] = in_u16() & 0x3F7F;
@@ -320,24 +348,33 @@ V_HARNESS(h_27_links)
 
 /* =============== parse_ait (TOP additional information table) =============== */
 #if defined(G_CP)
+static int title_zero(const struct ttx_ait_title *t) { unsigned j; int ok = plink_zero(&t->link); for (j = 0; j < 12; j++) ok &= (t->text[j] == 0); return ok; }
+static int title_eq(const struct ttx_ait_title *a, const struct ttx_ait_title *b) { unsigned j; int ok = plink_eq(&a->link, &b->link); for (j = 0; j < 12; j++) ok &= (a->text[j] == b->text[j]); return ok; }
 V_HARNESS(h_ait)
 {
-  uint8_t raw[40], r2[40]; int packet; unsigned pos;
+  uint8_t raw[40], r2[40]; int packet; unsigned pos, i;
   V_INIT();
-  ZERO_STATIC(CP); ZERO_STATIC(CP2);
   in_bytes(raw, 40); packet = in_u8() & 31; pos = in_u16();
   /* links (bytes 0..7, 20..27) are Hamming 8/4: single error corrected */
   V_ASSUME(pos < 320 && ((pos / 8) < 8 || ((pos / 8) >= 20 && (pos / 8) < 28)));
   put_ham8(raw, 40, pos / 8, in_u8());
   memcpy(r2, raw, 40);
   FOR_CONCRETE(k, 0, 31, packet, parse_ait(&CP, raw, k));
-  { size_t lo = 0, hi = 0;     /* frame: packet n (1..23) writes title[2(n-1)] and title[2(n-1)+1] only */
-    if (packet >= 1 && packet <= 23) { lo = offsetof(cache_page, data.ait.title) + (size_t) (packet - 1) * 2 * sizeof(struct ttx_ait_title); hi = lo + 2 * sizeof(struct ttx_ait_title); }
-    V_ASSERT(zero_except(&CP, sizeof CP, lo, hi), "ait_writes_only_its_two_titles");
-    V_ASSERT(hi <= offsetof(cache_page, data.ait.title) + sizeof CP.data.ait.title, "ait_region_inside_title_table"); }
+  { unsigned lo = 0, hi = 0;     /* frame: packet n (1..23) writes title[2(n-1)] and title[2(n-1)+1] only */
+    if (packet >= 1 && packet <= 23) { lo = (unsigned) (packet - 1) * 2; hi = lo + 2; }
+    V_ASSERT(hi <= N_ELEMENTS(CP.data.ait.title), "ait_region_inside_title_table");
+    V_ASSERT(cp_header_eq(&CP, &ZCP), "ait_page_header_untouched");
+    for (i = 0; i < N_ELEMENTS(CP.data.ait.title); i++) if (i < lo || i >= hi) V_ASSERT(title_zero(&CP.data.ait.title[i]), "ait_writes_only_its_two_titles");
+    V_ASSERT(CP.data.ait.checksum == 0, "ait_writes_only_its_two_titles");
+#ifdef CARVE_PAGE_UNION   /* neighbour before data.ait in the side-by-side layout (ait is the last member: behind it the object ends) */
+    for (i = 0; i < DRCS_PTUS_PER_PAGE; i++) V_ASSERT(CP.data.drcs.mode[i] == 0, "ait_nothing_before_the_title_table");
+    V_ASSERT(CP.data.drcs.invalid == 0, "ait_nothing_before_the_title_table");
+#endif
+  }
   flip(r2, 40, pos);
   FOR_CONCRETE(k, 0, 31, packet, parse_ait(&CP2, r2, k));
-  V_ASSERT(bytes_eq(&CP, &CP2, sizeof CP), "ait_single_error_same_state");
+  V_ASSERT(cp_header_eq(&CP, &CP2) && CP.data.ait.checksum == CP2.data.ait.checksum, "ait_single_error_same_state");
+  for (i = 0; i < N_ELEMENTS(CP.data.ait.title); i++) V_ASSERT(title_eq(&CP.data.ait.title[i], &CP2.data.ait.title[i]), "ait_single_error_same_state");
   V_END();
 }
 #endif
